@@ -187,7 +187,7 @@ fn run(cfg: &Cfg) -> Report {
         cfg,
         "proptest programs of 3-9 TypedGen instructions (dimensionally consistent by construction, see C01) submitted as ONE multi-statement input with prints interleaved, plus 1-3 mis-dimensioned variants of each: one equality site of the program (right operand of + - or a comparison, else-branch, list element, conversion target, annotated definition, argument of an annotated parameter, annotated return expression, assert_eq operand) is multiplied by `3 second`, which changes the dimension of that side only. Oracle: the consistent program is accepted and the checker's type of every definition equals the generator's dimension vector; every variant is rejected with a type error (not a run-time error, not accepted), prints nothing (also not the prints before the bad statement), leaves the session's definitions unchanged, and none of its names exist afterwards. non-trivial = >= 3 statements with a derived dimension or generic function (and, for the counted variants, a print before the bad statement); distinct = program text",
     );
-    let cases = cfg.tier.pick(250u32, 10000u32);
+    let cases = cfg.tier.pick(1000u32, 10000u32);
     rep.absorb(run_proptest(
         cfg,
         "programs",
